@@ -3,7 +3,7 @@
 //@ tu: libxcm/ctl/ctl.c
 //@ enforce: process_client
 //@ replace: client_send client_receive
-//@ defs: -DXV_CTL_SLOT=$SLOT
+//@ defs: -DXV_CTL_SLOT=$SLOT -DXV_CTL_TRACK=0
 //@ props: C14
 //@ expect: postcondition>=2 canary=2
 #include "_unit.h"
